@@ -175,21 +175,21 @@ func checkC19(c c19Case) *core.Failure {
 			return core.Failf("C19/version-disturbed", "%s: version %d differs from the unmanipulated %d\n%s", alias, x.Version, b.Version, desc)
 		}
 		if mm.OuterSig != "" {
-			if x.OuterSig.OID != core.CanonOID(mm.OuterSig) {
+			if x.OuterSig.OID != core.CanonOID(mm.OuterSig) || x.OuterSig.HasParam {
 				return core.Failf("C19/outer-sigalg-not-applied", "%s: outer signatureAlgorithm %s, manipulation says %s\n%s", alias, x.OuterSig.OID, mm.OuterSig, desc)
 			}
 		} else if !bytes.Equal(x.OuterSig.Raw, b.OuterSig.Raw) {
 			return core.Failf("C19/outer-sigalg-disturbed", "%s: outer signatureAlgorithm %s differs from the unmanipulated %s\n%s", alias, hexs(x.OuterSig.Raw), hexs(b.OuterSig.Raw), desc)
 		}
 		if mm.TbsSig != "" {
-			if x.InnerSig.OID != core.CanonOID(mm.TbsSig) {
+			if x.InnerSig.OID != core.CanonOID(mm.TbsSig) || x.InnerSig.HasParam {
 				return core.Failf("C19/inner-sigalg-not-applied", "%s: tbs.signature %s, manipulation says %s\n%s", alias, x.InnerSig.OID, mm.TbsSig, desc)
 			}
 		} else if !bytes.Equal(x.InnerSig.Raw, b.InnerSig.Raw) {
 			return core.Failf("C19/inner-sigalg-disturbed", "%s: tbs.signature %s differs from the unmanipulated %s\n%s", alias, hexs(x.InnerSig.Raw), hexs(b.InnerSig.Raw), desc)
 		}
 		if mm.TbsPubAlg != "" {
-			if x.SPKIAlg.OID != core.CanonOID(mm.TbsPubAlg) {
+			if x.SPKIAlg.OID != core.CanonOID(mm.TbsPubAlg) || x.SPKIAlg.HasParam {
 				return core.Failf("C19/pubkey-alg-not-applied", "%s: public key algorithm %s, manipulation says %s\n%s", alias, x.SPKIAlg.OID, mm.TbsPubAlg, desc)
 			}
 		} else if !bytes.Equal(x.SPKIAlg.Raw, b.SPKIAlg.Raw) {
@@ -267,7 +267,7 @@ func TestC19(t *testing.T) {
 	r := core.Start(t, "C19")
 	defer r.Finish()
 	r.Rule = "base case: root and subordinate with pre-placed keys (RSA-1024/2048 preferred so that PKCS#1 v1.5 signatures are deterministic; also P-256, P-384, brainpoolP256r1), configured serials, absolute validity, SKI/AKI hash plus up to 3 further extensions each; six manipulation values drawn once (version from {0,1,2,3,4,-1,-128,127,128,255,256,65535,2^31,2^40+3}, three valid OIDs, two byte values in every raw form up to 1500 bytes). Half of the bases reference a profile (so that profile merging runs). For each base ALL 64 subsets of the six keys are applied to the root or the subordinate and compared with the unmanipulated run of the same configuration. Oracle: named fields carry exactly the given value; every other field equals the unmanipulated certificate; key identifiers follow the bits actually in the certificates; unless the signature value itself is manipulated, the signature verifies over the raw manipulated TBS bytes with the real issuer key (taken from the issuer's PRIVATE KEY block) under the configured algorithm; outer-only manipulations leave the TBS bytes untouched; for a quarter of the subsets the manipulations are then removed from the configuration again and the regenerated certificate must equal the unmanipulated one. Non-trivial = subset of size >= 2 or a TBS-internal manipulation on the subordinate; distinct by base + subset."
-	r.Assumptions = []string{"the parameters of a manipulated AlgorithmIdentifier are not asserted", "an absent version field reads as 0"}
+	r.Assumptions = []string{"a manipulated AlgorithmIdentifier is exactly what the configuration gives: the OID and nothing else (no parameters)", "an absent version field reads as 0"}
 	wrap := func(c c19Case) *core.Failure {
 		bits := 0
 		for i := 0; i < 6; i++ {
